@@ -349,12 +349,18 @@ func TestVerifC20(t *testing.T) {
 	c.Rule("A round-trip case is a freshly signed assertion of one of 11 types carrying 1-4 extra headers with generated hostile values " +
 		"(strings: empty, leading/trailing blanks, multi-line incl. empty lines and leading/trailing newlines, text that looks like list markers, map keys, " +
 		"indentation or other headers, control characters, unicode, >4 KiB; non-empty lists and maps nested up to depth 4) and a generated body; it is " +
-		"distinct by (type, multiset of value shapes, body class). A stream case concatenates 2-6 of them. A hostile case is a byte string derived from a " +
+		"distinct by (type, multiset of value shapes, body class). A stream case concatenates 2-6 of them. A final-newline-mix stream case writes 2-6 of them, " +
+		"each either as signed or as decoded from its encoding without the optional final newline of the signature, in one of 10 position patterns (all/none/first/last/" +
+		"middle/leading run/only first/only last/alternating/random) through one of 5 writers (Encoder.Encode, WriteEncoded, WriteContentSignature, the three mixed, " +
+		"joined by hand) and decodes the stream under all 5 reader chunkings; it is distinct by (writer, per-position newline pattern, per-position type/body class/entry point). A hostile case is a byte string derived from a " +
 		"valid encoding (truncation, byte replacement/insertion/deletion at an offset, line deletion/duplication/indentation/swap, header value replaced by a " +
 		"dictionary token, splice of two encodings, mutated multi-assertion stream) or garbage; it is distinct by (family, mutation, seed type + region of the " +
 		"offset, outcome classes of Decode and of the stream decoder). A limit case is distinct by (clause, size relative to the maximum, reader chunking).")
 	c.Assume("Header names and map keys match snapd's documented name grammar and header values and bodies are valid UTF-8 (documented preconditions of the format).")
 	c.Assume("Empty lists/maps have no representation in the format and snapd documents (and tests) that the encoder omits them; the main generator only emits non-empty collections and a directed family checks that omission is the only effect.")
+	c.Assume("'Identical signature' for streams: asserts.Decode keeps the signature bytes as given (with or without the optional final newline); the Encoder completes a missing final " +
+		"newline and the stream Decoder returns exactly one final newline for every assertion followed by another one and the bytes as they stand for the last one, so the decoded " +
+		"signature must equal the written one with the final newline completed (byte-identical for the last assertion of a hand-joined stream); nothing else may differ.")
 	c.Assume("Signature bytes embed the signing time, so they differ between runs; the decoders treat them as opaque. Everything else in the case list is a pure function of VERIF_SEED, tier and shard.")
 	c.Assume("Only the CPU-time limit of an isolated re-run can turn a stall into a violation; the wall-clock progress watchdog only selects the case to re-run.")
 
@@ -416,6 +422,13 @@ func TestVerifC20(t *testing.T) {
 	shard, _ := kit.Shard()
 	c.Floor("roundtrips_equal", int64(kit.Scale(2000, 10000)))
 	c.Floor("streams_equal", int64(kit.Scale(150, 1200)))
+	c.Floor("nlmix_streams_equal", int64(kit.Scale(450, 3000)))
+	c.Floor("nlmix_streams_first_without_final_newline", int64(kit.Scale(200, 1300)))
+	c.Floor("nlmix_streams_middle_without_final_newline", int64(kit.Scale(200, 1300)))
+	c.Floor("nlmix_streams_last_without_final_newline", int64(kit.Scale(150, 1000)))
+	for _, w := range writerNames {
+		c.Floor("nlmix_writer_"+w, int64(kit.Scale(90, 600)))
+	}
 	c.Floor("hostile_inputs", 30000)
 	c.Floor("decode_rejected", 15000)
 	c.Floor("decode_accepted", 100)
